@@ -72,6 +72,30 @@ func (cx *Ctx) isErrorReply(c ssa.CallInstruction) bool {
 		}
 		return true
 	}
+	// `resp, err := build(); if err != nil { resp = makeFailed(...) }; send(resp)`: on the path being judged the
+	// variable holds what that path assigned
+	for d := 0; d < 4; d++ {
+		phi, isPhi := resp.(*ssa.Phi)
+		if !isPhi || cx.curPath == nil {
+			break
+		}
+		pb := phi.Block()
+		found := false
+		for i := len(cx.curPath.Blocks) - 1; i > 0 && !found; i-- {
+			if cx.curPath.Blocks[i] != pb {
+				continue
+			}
+			for j, pred := range pb.Preds {
+				if pred == cx.curPath.Blocks[i-1] && j < len(phi.Edges) {
+					resp = phi.Edges[j]
+					found = true
+				}
+			}
+		}
+		if !found {
+			break
+		}
+	}
 	mc, ok := resp.(*ssa.Call)
 	if !ok {
 		return false
@@ -209,7 +233,10 @@ func (cx *Ctx) checkErrReply(r *Report, rule, key string, fn *ssa.Function) int 
 				sub.Failed = append(sub.Failed, p.Failed[i])
 			}
 			eff := sub.count()
-			if ok, a := cx.errorReplyActs(sub.Acts, sub.Failed); !ok {
+			cx.curPath = &sub.Path
+			okActs, a := cx.errorReplyActs(sub.Acts, sub.Failed)
+			cx.curPath = nil
+			if ok := okActs; !ok {
 				bad = fmt.Sprintf("after %s failed the reply is %s at %s, which is not an error reply", shortCallee(calleeName(call)), a.Kind, w.InstrPos(a.Call))
 			}
 			if eff != 1 && bad == "" {
